@@ -11,7 +11,7 @@ import warnings
 from fractions import Fraction
 
 from harness.lib import boot
-from harness.lib.coqrun import qlit, zlit, listlit, eval_files, parse_eval_blocks
+from harness.lib.coqrun import qlit, zlit, listlit, parse_eval_blocks, COQ, BUILD, LOGICAL
 from harness.lib.ctx import guarded
 
 REQ = "From HV Require Import Common.Generic C04.Model.\n"
@@ -249,7 +249,47 @@ def cb_value(sc):
     return float((rz * rxy ** 2) ** (1 / 3.))
 
 
-def coq_eval_lists(tag, exprs, chunk=25):
+def run_coq_files(tag, files, jobs=3, timeout=600):
+    """compile (name, text) files with coqc in build/run/<tag>/, at most `jobs` at a time.  The (large) output goes
+    to a file, not a pipe.  Returns [(name, rc, output)] in the order of `files`."""
+    import os
+    import subprocess
+    import time
+    rundir = os.path.join(BUILD, "run", tag)
+    os.makedirs(rundir, exist_ok=True)
+    for fn in os.listdir(rundir):
+        try:
+            os.remove(os.path.join(rundir, fn))
+        except OSError:
+            pass
+    pending, running, done = list(files), [], {}
+    while pending or running:
+        while pending and len(running) < jobs:
+            name, text = pending.pop(0)
+            path = os.path.join(rundir, name + ".v")
+            with open(path, "w") as fh:
+                fh.write(text)
+            outf = open(os.path.join(rundir, name + ".out"), "w")
+            p = subprocess.Popen(["coqc", "-Q", COQ, LOGICAL, path], cwd=rundir, stdout=outf, stderr=subprocess.STDOUT)
+            running.append((name, p, outf, time.time()))
+        still = []
+        for name, p, outf, ts in running:
+            rc = p.poll()
+            if rc is None and time.time() - ts > timeout:
+                p.kill()
+                rc = 124
+            if rc is None:
+                still.append((name, p, outf, ts))
+            else:
+                outf.close()
+                done[name] = (rc, open(os.path.join(rundir, name + ".out")).read())
+        running = still
+        if running:
+            time.sleep(0.05)
+    return [(name, done[name][0], done[name][1]) for name, _ in files]
+
+
+def coq_eval_lists(tag, exprs, chunk=12):
     """exprs: Gallina terms of type list Q.  Returns (list of list[Fraction] | None, errors)"""
     files = []
     for k in range(0, len(exprs), chunk):
@@ -258,7 +298,7 @@ def coq_eval_lists(tag, exprs, chunk=25):
                 listlit(["\n  (" + e + ")" for e in exprs[k:k + chunk]]) + ".\nClose Scope Q_scope.\nOpen Scope Z_scope.\n"
                 "Eval vm_compute in (map out cases).\n")
         files.append(("cases_%04d" % (k // chunk), text))
-    res = eval_files(tag, files)
+    res = run_coq_files(tag, files)
     out, errors = [], []
     for i, (name, rc, text) in enumerate(res):
         n_here = len(exprs[i * chunk:(i + 1) * chunk])
@@ -279,7 +319,7 @@ def coq_eval_lists(tag, exprs, chunk=25):
             out.extend([None] * n_here)
             continue
         for s in inner:
-            out.append([Fraction(int(a), int(b)) for a, b in re.findall(r"\((-?\d+),\s*(\d+)\)", s)])
+            out.append([Fraction(int(a), int(b)) for a, b in re.findall(r"\(\s*(-?\d+)\s*,\s*(\d+)\s*\)", s)])
     return out, errors
 
 
@@ -332,6 +372,7 @@ def make_mock(coord, mode):
 
 
 PLOG = []   # parameter records of the real solvers, in call order
+MAXERR = {}  # largest relative difference seen in the exploration, per theory (reported in the evidence notes)
 
 
 class _Proxy(object):
@@ -859,8 +900,10 @@ def explore_one(ctx, name, api, base, s, subst, base_out=None):
         ok = close_vec(out[[0, 2, 3]], expect[[0, 2, 3]], tol) and abs(out[1] - expect[1]) <= tol * abs(expect[2])
     else:
         ok = close_vec(out, expect, tol)
+    err = float(np.max(np.abs(out - expect)) / max(np.max(np.abs(expect)), 1e-300)) if out.shape == expect.shape else None
+    if ok and err is not None:
+        MAXERR[name] = max(MAXERR.get(name, 0.0), err)
     if not ok:
-        err = float(np.max(np.abs(out - expect)) / max(np.max(np.abs(expect)), 1e-300)) if out.shape == expect.shape else None
         data["rel_err"] = err
         ctx.violation("explore:%s:%s:%s" % (name, api, kind),
                       "%s of %s changes under %s (s=%r): relative difference %r > %g" % (api, name, kind, s, err, tol), data)
@@ -952,6 +995,8 @@ def run(ctx):
     guarded(ctx, "mock", stage_mock, ctx)
     guarded(ctx, "params", stage_params, ctx)
     guarded(ctx, "explore", stage_explore, ctx)
+    ctx.notes.append("largest relative difference observed in the exploration (tolerance 1e-9; 1e-6 for Multisphere / T-matrix): "
+                     + ", ".join("%s %.1e" % kv for kv in sorted(MAXERR.items())))
 
 
 def replay(ctx, data):
